@@ -20,7 +20,7 @@ THEOREMS = [
 ]
 RULE = ('triples (ns, nswin, overlap) with overlap < nswin: an exhaustive small box plus seeded random triples '
         '(log-uniform sizes up to 10^7, biased to short last windows, ns <= overlap, zero overlap, 2*overlap = nswin; sample counts around 2^31 … 2^45 with very large windows, and the default 65536/1024 batch window over 2^31 samples); '
-        'a subset also with the three arguments given in other numeric forms (numpy ints of several widths, floats); each triple is run through firstlast / nwin / tscale (a subset also twice on ONE generator object), firstlast_valid (even overlaps, odd ones must assert) '
+        'a subset also with the three arguments given in other numeric forms (numpy ints of several widths, floats); each triple is run through firstlast / nwin / tscale (a subset also twice on ONE generator object, and with passes that overlap in time on one object: tscale / a full pass inside an outer loop, two generators in lockstep), firstlast_valid (even overlaps, odd ones must assert) '
         'and firstlast_splicing; a case is non-trivial when it yields >= 2 windows or ns < nswin; distinct by triple+op')
 ASSUMPTIONS = [
     'nwin is computed in float64 by the code (ceil of a float quotient); the model uses exact integers, equal for ns < 2^26',
@@ -81,6 +81,31 @@ def _impl_same_object(ns, w, ov):
         out.append((f'ok nwin={int(wg.nwin)} fl=' + (';'.join(f'{a},{b}' for a, b in fl) or '-') + ' ts2=' + (','.join(map(str, ts2)) or '-'),
                     vs, sl == fl, amps))
     return out
+
+
+def _impl_interleaved(ns, w, ov):
+    """Passes over ONE WindowGenerator object that overlap in time (a second generator started while the first is being
+    consumed): tscale / a full inner pass inside an outer loop, two generators advanced in lockstep.  Each generator is an
+    independent iteration of the same windows; returns the window lists seen by every pass."""
+    from ibldsp.utils import WindowGenerator
+    wg = WindowGenerator(ns, w, ov)
+    outer, inner_ts, inner_fl = [], [], []
+    for k, (a, b) in enumerate(wg.firstlast):
+        outer.append((int(a), int(b)))
+        if k == 0:
+            inner_ts = [int(round(2 * float(t))) for t in wg.tscale(1)]
+        if k == 1:
+            inner_fl = [(int(c), int(d)) for c, d in wg.firstlast]
+        if k > 4000:
+            break
+    wg2 = WindowGenerator(ns, w, ov)
+    lock_a, lock_b = [], []
+    for sl, (c, d, amp) in zip(wg2.slice, wg2.firstlast_splicing):
+        lock_a.append((int(sl.start), int(sl.stop)))
+        lock_b.append((int(c), int(d), len(amp)))
+        if len(lock_a) > 4000:
+            break
+    return outer, inner_ts, inner_fl, lock_a, lock_b
 
 
 _FORMS = {
@@ -241,6 +266,16 @@ def correspondence(ctx):
         except Exception as e:
             ctx.compare('same-object', {'op': 'same-object', 'ns': ns, 'nswin': w, 'overlap': ov}, f'err {type(e).__name__}: {e}', 'ok',
                         tags=('same-object',))
+        # passes that overlap in time on one object (nested / lockstep generators): every pass sees the model's windows
+        mwin = [tuple(int(x) for x in q.split(',')) for q in dict(p.split('=', 1) for p in mfl.split()[1:])['fl'].split(';') if q != '-']
+        mts2 = [a + b - 1 for a, b in mwin]
+        try:
+            outer, its, ifl, la, lb = _impl_interleaved(ns, w, ov)
+            impl_s = (outer, its, ifl if len(mwin) > 1 else mwin, la, [(c, d) for c, d, _ in lb], all(n == d - c for c, d, n in lb))
+        except Exception as e:
+            impl_s = f'err {type(e).__name__}: {e}'
+        ctx.compare('interleaved', {'op': 'interleaved', 'ns': ns, 'nswin': w, 'overlap': ov}, impl_s,
+                    (mwin, mts2, mwin, mwin, mwin, True), nontrivial=(len(mwin) > 1), tags=('interleaved-passes',))
     ctx.exhaustive = False
     ctx.note(f'exhaustive box ns<={ctx.exhaustive_box[0]}, nswin<={ctx.exhaustive_box[1]}, every overlap < nswin: '
              f'enumerated completely for firstlast/nwin/tscale/valid')
@@ -278,6 +313,20 @@ def oracle(ns, w, ov):
     fl2 = [(int(a), int(b)) for a, b in wg.firstlast]
     if fl2 != fl:
         return f'second iteration over the same WindowGenerator yields different windows: {fl2[:3]} vs {fl[:3]}'
+    # generators started while another one over the same object is being consumed are independent passes
+    if len(fl) <= 4000:
+        try:
+            outer, its, ifl, la, lb = _impl_interleaved(ns, w, ov)
+        except Exception as e:
+            return f'interleaved passes over one WindowGenerator raised {type(e).__name__}: {e}'
+        if outer != fl:
+            return f'a pass over firstlast during which tscale() / another pass was run on the same object yields {outer[:4]} instead of {fl[:4]}'
+        if len(fl) > 1 and ifl != fl:
+            return f'a pass started inside another pass over the same object yields {ifl[:4]} instead of {fl[:4]}'
+        if [round(t) for t in its] != [a + b - 1 for a, b in fl]:
+            return f'tscale() called inside a pass over the same object gives {[t / 2 for t in its[:4]]}, not the window centres'
+        if la != fl or [(c, d) for c, d, _ in lb] != fl:
+            return f'slice and firstlast_splicing advanced in lockstep on one object yield {la[:4]} / {lb[:4]} instead of {fl[:4]}'
     if 2 * ov <= w and ns <= 20000:
         wg2 = WindowGenerator(ns, w, ov)
         for rep in range(2):
